@@ -231,4 +231,171 @@ theorem applyUpdate_frame (E : Env) : ∀ (fuel : Nat) (w : World) (s : Store) (
             exact (List.mem_filter.mp this).1
           exact hall kv this hk
 
+/-! ## the leaf branch, object identity -/
+
+
+/-- the leaf branch of `applyUpdate`, spelled out -/
+def leafResult (E : Env) (w : World) (a : Attrs) (u : Val) : Except Err (World × Store) :=
+  if a.proc.isSome then .error .assertion
+  else
+    match leafApply E a (w.heap.read a.value) u with
+    | .error e => .error e
+    | .ok (v, keeps) =>
+      match keeps, a.value with
+      | true, .ref ad => .ok ({ w with heap := w.heap.set ad v }, .mk a [])
+      | _, _ => .ok (w, .mk { a with value := .own v } [])
+
+theorem applyUpdate_leaf (E : Env) (fuel : Nat) (w : World) (a : Attrs) (u : Val)
+    (hm : ∀ kvs, u = .dict kvs → KV.lookup Generated.multiUpdateKey kvs = none) :
+    applyUpdate E (fuel + 1) w (.mk a []) u = leafResult E w a u := by
+  unfold applyUpdate leafResult
+  cases u with
+  | dict kvs =>
+    simp only [hm kvs rfl, List.isEmpty_nil, Bool.not_true, Bool.false_eq_true, if_false]
+    rfl
+  | _ => simp only [List.isEmpty_nil, Bool.not_true, Bool.false_eq_true, if_false]; rfl
+
+theorem leafApply_keeps (E : Env) (a : Attrs) (cur u v : Val)
+    (h : leafApply E a cur u = .ok (v, true)) :
+    ∃ f, leafUpdater a.updater u = some f ∧ f.keepsObject = true := by
+  have hgo : leafApply.go E a cur u = .ok (v, true) := by
+    unfold leafApply at h
+    split at h
+    · split at h
+      · simp at h
+      · exact h
+    · exact h
+  unfold leafApply.go at hgo
+  split at hgo
+  · simp at hgo
+  · rename_i f hf
+    split at hgo
+    · simp at hgo
+    · split at hgo
+      · injection hgo with hgo
+        injection hgo with _ hk
+        exact ⟨f, hf, hk⟩
+      · simp only [Except.map] at hgo
+        split at hgo
+        · simp at hgo
+        · injection hgo with hgo
+          injection hgo with _ hk
+          cases hk
+
+
+/-! ## frame of division -/
+
+
+theorem establishPath_one_frame (s s' : Store) (key : String) (cfg : Val)
+    (h : establishPath s [key] cfg = .ok s') (k : String) (hk : k ≠ key) :
+    AL.lookup k s'.inner = AL.lookup k s.inner := by
+  obtain ⟨a, inner⟩ := s
+  unfold establishPath at h
+  split at h
+  · simp at h
+  · split at h
+    · simp at h
+    · split at h
+      · injection h with h; rw [← h]; simp only [Store.inner]; exact AL.lookup_set_other hk _ _
+      · simp at h
+
+theorem modifyAt_one_frame (f : Store → Except Err Store) (s s' : Store) (key : String)
+    (h : modifyAt f s [key] = .ok s') (k : String) (hk : k ≠ key) :
+    AL.lookup k s'.inner = AL.lookup k s.inner := by
+  obtain ⟨a, inner⟩ := s
+  unfold modifyAt at h
+  split at h
+  · split at h
+    · injection h with h; rw [← h]; simp only [Store.inner]; exact AL.lookup_set_other hk _ _
+    · simp at h
+  · simp at h
+
+theorem generate_one_frame (h0 : Heap) (s s' : Store) (key : String) (pl : List (String × PTree)) (ds : DS)
+    (h : generate h0 s [key] pl ds = .ok s') (k : String) (hk : k ≠ key) :
+    AL.lookup k s'.inner = AL.lookup k s.inner := by
+  unfold generate at h
+  simp only [bind, Except.bind] at h
+  split at h
+  · simp at h
+  · rename_i s1 h1
+    rw [modifyAt_one_frame _ s1 s' key h k hk, establishPath_one_frame s s1 key _ h1 k hk]
+
+/-- the key under which a `_divide` daughter entry is created -/
+def daughterKey : Val → Option String
+  | .dict dkvs => match KV.lookup "key" dkvs with | some (.str key) => some key | _ => none
+  | _ => none
+
+theorem divideDaughter_frame (s s' : Store) (mother : String) (w w' : World) (d : Val) (ds : DS)
+    (h : divideDaughter s mother w d ds = .ok (w', s')) (k : String) (hk : daughterKey d ≠ some k) :
+    AL.lookup k s'.inner = AL.lookup k s.inner := by
+  unfold divideDaughter at h
+  split at h
+  · rename_i dkvs
+    split at h
+    · simp at h
+    · split at h
+      · rename_i key hkey
+        have hne : k ≠ key := by
+          intro e; apply hk; simp [daughterKey, hkey, e]
+        cases hp : daughterProcs s mother dkvs with
+        | error e => simp [hp] at h
+        | ok pl =>
+          simp only [hp] at h
+          split at h
+          · simp at h
+          · rename_i s1 hg
+            split at h
+            · rename_i s2 hm
+              injection h with h
+              injection h with _ h2
+              rw [← h2, modifyAt_one_frame _ s1 s2 key hm k hne, generate_one_frame _ s s1 key _ _ hg k hne]
+            · simp at h
+      · simp at h
+  · simp at h
+
+theorem foldlM_divideDaughter_frame (mother : String) (k : String)
+    (l : List (Val × DS)) (hl : ∀ p ∈ l, daughterKey p.1 ≠ some k) :
+    ∀ acc acc', l.foldlM (fun (acc : World × Store) (p : Val × DS) => divideDaughter acc.2 mother acc.1 p.1 p.2) acc = .ok acc' →
+      AL.lookup k acc'.2.inner = AL.lookup k acc.2.inner := by
+  induction l with
+  | nil => intro acc acc' h; simp [List.foldlM, pure, Except.pure] at h; rw [h]
+  | cons hd tl ih =>
+    intro acc acc' h
+    simp only [List.foldlM, bind, Except.bind] at h
+    split at h
+    · simp at h
+    · rename_i acc1 h1
+      rw [ih (fun p hp => hl p (List.mem_cons_of_mem _ hp)) acc1 acc' h]
+      obtain ⟨w1, s1⟩ := acc1
+      exact divideDaughter_frame acc.2 s1 mother acc.1 w1 hd.1 hd.2 h1 k (hl hd List.mem_cons_self)
+
+/-- **Frame of division**: in the branch holding the mother, every child other than the mother and
+the daughters is the same node afterwards. -/
+theorem divide_frame_lemma (E : Env) (w w' : World) (s s' : Store) (mother : String) (daughters : List Val)
+    (kvs : KVs) (hmo : KV.lookup "mother" kvs = some (.str mother))
+    (hda : KV.lookup "daughters" kvs = some (.list daughters))
+    (h : divide E w s (.dict kvs) = .ok (w', s')) (k : String) (hk : k ≠ mother)
+    (hd : ∀ d ∈ daughters, daughterKey d ≠ some k) :
+    AL.lookup k s'.inner = AL.lookup k s.inner := by
+  unfold divide at h
+  simp only [hmo, hda] at h
+  split at h
+  · simp at h
+  · split at h
+    · simp at h
+    · simp at h
+    · rename_i m hm d1 d2 w1 hdv
+      split at h
+      · simp at h
+      · rename_i w2 a inner hf
+        injection h with h
+        injection h with _ h2
+        rw [← h2]
+        have := foldlM_divideDaughter_frame mother k (daughters.zip [d1, d2])
+          (fun p hp => hd p.1 (List.of_mem_zip hp).1) (w1, s) (w2, .mk a inner) hf
+        show AL.lookup k (AL.erase mother inner) = AL.lookup k s.inner
+        rw [AL.lookup_erase_other hk]
+        exact this
+
+
 end Viv
